@@ -266,3 +266,56 @@ Definition opt_rstate_eqb (a b : option rstate) : bool :=
   match a, b with Some x, Some y => rstate_eqb x y | None, None => true | _, _ => false end.
 Definition chain_rsafe (chain : list (N * list N)) : bool :=
   forallb (fun x => opt_rstate_eqb (rrun RNorm (esc1 chain x)) (Some RNorm)) (c_bslash :: ctrl_chars ++ map fst chain).
+
+(* ---------------------------------------------------------------- blocks: braces and brackets outside strings *)
+(* state: lexical state, depth of { }, inside an attribute list [ ], the graph has been closed.
+   Outside strings: a quote or a bracket needs an open graph; brackets do not nest and contain no brace; an HTML
+   string only occurs inside an attribute list; the brace that returns to depth 0 closes the graph, after which only
+   white space may follow; comment openers are rejected as in dstep. *)
+Definition gstate := (dstate * nat * (bool * bool))%type.
+Definition gstate_eqb (a b : gstate) : bool :=
+  let '(l1, d1, (a1, c1)) := a in let '(l2, d2, (a2, c2)) := b in
+  dstate_eqb l1 l2 && Nat.eqb d1 d2 && Bool.eqb a1 a2 && Bool.eqb c1 c2.
+Definition is_ws (c : N) : bool := N.eqb c 32 || N.eqb c 10 || N.eqb c 9 || N.eqb c 13.
+
+Definition gstep (st : gstate) (c : N) : option gstate :=
+  let '(lx, d, (at_, cl)) := st in
+  match lx with
+  | DOut =>
+      if cl then (if is_ws c then Some st else None)
+      else if N.eqb c c_quote then (match d with O => None | _ => Some (DIn, d, (at_, cl)) end)
+      else if N.eqb c 60 then (if at_ then Some (DHtml 0, d, (at_, cl)) else None)
+      else if N.eqb c 47 || N.eqb c 35 then None
+      else if N.eqb c 123 then (if at_ then None else Some (DOut, S d, (false, false)))
+      else if N.eqb c 125 then
+        (if at_ then None else
+           match d with
+           | O => None
+           | S O => Some (DOut, O, (false, true))
+           | S d' => Some (DOut, d', (false, false))
+           end)
+      else if N.eqb c 91 then (if at_ then None else match d with O => None | _ => Some (DOut, d, (true, cl)) end)
+      else if N.eqb c 93 then (if at_ then Some (DOut, d, (false, cl)) else None)
+      else Some st
+  | _ => match dstep lx c with
+         | Some DOut => Some (DOut, d, (at_, cl))
+         | Some lx' => Some (lx', d, (at_, cl))
+         | None => None
+         end
+  end.
+Definition grun := run gstep.
+
+Definition ghole (k : hkind) (st : gstate) : option gstate :=
+  let '(lx, d, (at_, cl)) := st in
+  match k, lx with
+  | (HDigits | HIdent | HPlain), DOut => if cl then None else Some st
+  | (HDigits | HIdent | HPlain), (DIn | DHtml _) => Some st
+  | (HEscaped | HPrim), DIn => Some st
+  | HHtml, DHtml _ => Some st
+  | _, _ => None
+  end.
+
+Definition g_start : gstate := (DOut, O, (false, false)).
+Definition g_final : gstate := (DOut, O, (false, true)).
+Definition doc_blocks_ok (t : tx) : bool :=
+  match tx_run gstate_eqb gstep ghole t g_start with Some st => gstate_eqb st g_final | None => false end.
